@@ -89,6 +89,17 @@ where
     })
   }
 
+  // a handle for the emitting side: it shares the observers but carries no hooks,
+  // so that a hook may own it without keeping itself (and all it captured) alive
+  pub(crate) fn emitter(&self) -> Subject<'a, Item> {
+    Subject {
+      observers: Arc::clone(&self.observers),
+      serial: Arc::clone(&self.serial),
+      on_subscribe: Arc::new(RwLock::new(None)),
+      on_unsubscribe: Arc::new(RwLock::new(None)),
+    }
+  }
+
   pub(crate) fn set_on_subscribe<F>(&self, f: F)
   where
     F: Fn(usize) + Send + Sync + 'a,
